@@ -51,6 +51,36 @@ def run(tier, rng, C):
         cases.append({'id': cid, 'line': V.stack_line(cid, 'value', layers), 'show': 'chain of %d whole-value references' % (ln - 1),
                       'nontrivial': True, 'cyclic': False, 'nrefs': ln - 1, 'chain': ln - 1})
 
+    # chains whose links are not whole-value references: embedded in text, list elements, mapping
+    # members looked into, fully indirect paths, and mixtures (every link nests exactly one level)
+    def styled_chain(ln, style):
+        es = [(S('r0'), M(('a', S('end'))) if style == 'member' else S('end'))]
+        for j in range(1, ln):
+            st = style if style != 'mixed' else rng.choice(['whole', 'embed', 'list', 'indirect'])
+            prev = 'r%d' % (j - 1)
+            if st == 'whole':
+                v = S('${%s}' % prev)
+            elif st == 'embed':
+                v = S('x${%s}' % prev)
+            elif st == 'list':
+                v = ('l', [S('${%s}' % prev)])
+            elif st == 'member':
+                v = M(('a', S('${%s:a}' % prev)))
+            else:
+                es.append((S('p%d' % j), S(prev)))
+                v = S('${${p%d}}' % j)
+            es.append((S('r%d' % j), v))
+        top = es[-1]
+        body = es[:-1]
+        rng.shuffle(body)
+        return [('m', body + [top])]
+    for style in ['embed', 'list', 'member', 'indirect', 'mixed']:
+        for ln in ([12, 33, 34, 41, 63, 64, 65, 66, 67] if tier == 'quick' else list(range(2, 70))):
+            cid = C.case_id('y' + style[0:2], ln)
+            layers = styled_chain(ln, style)
+            cases.append({'id': cid, 'line': V.stack_line(cid, 'value', layers), 'show': 'chain of %d %s references' % (ln - 1, style),
+                          'nontrivial': True, 'cyclic': False, 'nrefs': ln - 1, 'chain': ln - 1})
+
     def oracle(cases, mobs, iobs):
         fails = []
         for c in cases:
@@ -75,7 +105,7 @@ def run(tier, rng, C):
                               'reason': bad, 'impl': C.describe(o), 'size': len(c['line'])})
         return fails
     rule = ('%d reference graphs over 2-8 keys, one third with a cycle inserted through a whole value / embedded / list element / '
-            'mapping value / layer placement; sharing cases (one reference used 2-20 times, diamonds); chains of 1..68 '
+            'mapping value / layer placement; sharing cases (one reference used 2-20 times, diamonds); chains of 1..68 (whole-value, embedded, list, member, fully indirect, mixed links) '
             'whole-value references around the limit of 64; oracle: cyclic -> error (never a value, never a panic), acyclic -> '
             'never a loop error, depth error only beyond 64; model/impl comparison on all' % n)
     return C.standard_run(cases, rule, key_fn=lambda c, m, i, r: 'model-impl-differ', extra_oracle=oracle)
